@@ -285,6 +285,21 @@ func GenUciSession(prop string, seed uint64) *Scenario {
 	for _, s := range sc.Cost.Stalls {
 		stallMs += int64(s.DurUs)/1000 + 1
 	}
+	// analysis session shape: many short searches that keep returning to a
+	// few positions (entries of earlier searches age in the hash table and
+	// are hit again much later)
+	var pool []string
+	var poolRoots []*rules.Pos
+	if (prop == "C05" || prop == "C07") && rng.Chance(0.2) {
+		n = rng.Range(10, 18)
+		for k := rng.Range(2, 4); k > 0; k-- {
+			pc, pr := genPosition(rng, 0)
+			if len(pc) < 1500 {
+				pool = append(pool, pc)
+				poolRoots = append(poolRoots, pr)
+			}
+		}
+	}
 	firstGap := int64(200)
 	// budget: one search should not need more than ~80k yields (the run has
 	// 900k tie-free slots), so fake durations are capped by the cost model
@@ -321,6 +336,10 @@ func GenUciSession(prop string, seed uint64) *Scenario {
 			firstGap = int64(rng.Range(0, 300))
 		}
 		posCmd, root := genPosition(rng, pf.Terminal)
+		if len(pool) > 0 {
+			k := rng.Intn(len(pool))
+			posCmd, root = pool[k], poolRoots[k]
+		}
 		burst := s > 0 && rng.Intn(100) < pf.Bursts
 		if burst {
 			// stop (idle engine), position, go delivered back to back
@@ -338,6 +357,9 @@ func GenUciSession(prop string, seed uint64) *Scenario {
 			goGap = 0
 		}
 		mode := rng.PickWeighted(pf.W[:])
+		if len(pool) > 0 {
+			mode = []int{0, 0, 1, 2}[rng.Intn(4)] // short self-limiting searches
+		}
 		side := "w"
 		if !root.WhiteTo {
 			side = "b"
